@@ -451,17 +451,52 @@ def _t1(ctx: Context) -> None:
     sf = ctx.func("aiohomekit.model.characteristics.characteristic.strtobool")
     scfg = ctx.cfg(sf.qualname)
     tables = {}
+    undecided = []
+
+    def _returned_after(edge):
+        """the constant returned on the straight-line code behind ``edge`` (assignments of constants followed), else None"""
+        env, cur, seen = {}, edge[1], set()
+        while cur not in seen:
+            seen.add(cur)
+            r = scfg.nodes[cur]
+            if r.kind == "return":
+                e_ = r.exprs[0] if r.exprs else None
+                if isinstance(e_, ast.Name) and e_.id in env:
+                    return env[e_.id]
+                return ctx.const(sf, e_, None) if e_ is not None else None
+            if r.kind == "stmt" and isinstance(r.ast, ast.Assign) and len(r.ast.targets) == 1 and isinstance(r.ast.targets[0], ast.Name):
+                v_ = r.ast.value
+                if isinstance(v_, ast.Constant):
+                    env[r.ast.targets[0].id] = v_.value
+                elif isinstance(v_, ast.Name) and v_.id in env:
+                    env[r.ast.targets[0].id] = env[v_.id]
+                else:
+                    env.pop(r.ast.targets[0].id, None)
+            elif r.kind not in ("stmt", "join", "block", "pass") and r.kind != "stmt":
+                if r.kind == "test":
+                    return None
+            outs = [d for (d, l, x) in r.succ if l != "x"]
+            if len(outs) != 1:
+                return None
+            cur = outs[0]
+        return None
+
     for n in scfg.nodes:
         if n.kind == "test":
             m = is_membership(n.exprs[0])
             if m:
                 coll = ctx.const(sf, m[1], None)
                 for e in scfg.out_edges(n, ("T",)):
-                    r = scfg.nodes[e[1]]
-                    if r.kind == "return" and r.exprs:
-                        tables[ctx.const(sf, r.exprs[0], None)] = set(coll or ())
-    ck.check("C14.T1", tables.get(1) == {"y", "yes", "t", "true", "on", "1"} and tables.get(0) == {"n", "no", "f", "false", "off", "0"},
-             "strtobool truth tables", f"{ctx.fkey(sf)}:tables", f"strtobool tables are {tables}", sf.loc())
+                    got = _returned_after(e)
+                    if got is None or coll is None:
+                        undecided.append(n)
+                    else:
+                        tables[got] = tables.get(got, set()) | set(coll)
+    if undecided or not tables:
+        ck.unknown("C14.T1", f"strtobool: what is returned for the words of `{undecided[0].text() if undecided else '<no membership test>'}` is not read", sf.loc())
+    else:
+        ck.check("C14.T1", tables.get(1) == {"y", "yes", "t", "true", "on", "1"} and tables.get(0) == {"n", "no", "f", "false", "off", "0"},
+                 "strtobool truth tables", f"{ctx.fkey(sf)}:tables", f"strtobool tables are {tables}", sf.loc())
 
 
 def _g2(ctx: Context) -> None:
